@@ -1253,6 +1253,8 @@ class C01(fw.Prop):
                 pl3, subs3 = conv_prog3(obs["prog"], c["tab"])  # may intern further types / signatures: before the tables are printed
                 lit = gapp("CProg3", gsigs(c["tab"]), pl3, subs3, gvhugr(c), gbool(obs["same"]), gbool(obs["fake"]))
                 obs["in_model3"] = True
+                # the premise of C01_builder3_child_tags (spec/Builder3S.v: croot3s) on the program alone
+                ctx.__dict__.setdefault("c01_prem", []).append((case, gapp("CPrem3", pl3, subs3)))
             except OutOfModel as e:
                 obs["out_of_model3"] = str(e)
         if lit is None:
@@ -1441,6 +1443,7 @@ class C01(fw.Prop):
         # the correspondence was sampled on: otherwise the theorems do not speak about the tested programs
         pr = ctx.__dict__.get("c01_prem", [])
         ctx.stats["premise_checked_programs"] = len(pr)
+        ctx.stats["premise_checked_programs_model3"] = sum(1 for x in pr if x[1].startswith("(CPrem3 "))
         if pr:
             res = fw.eval_cases(ctx.work, self.run_module, [x[1] for x in pr], shard=60,
                                 checks=("prem", "prem_ord", "prem_lin"), tag="prem")
